@@ -13,7 +13,8 @@ From DV Require Import Model.PyPrims Model.C12Model Model.C12Spec2 Proofs.C12Pro
   Proofs.C12AnnTop Proofs.C12FunTop Proofs.C12ImageTop Proofs.C12Examples2 Model.C12Shallow Proofs.C12ShallowTop
   Model.C12Spec3 Proofs.C12IsoFullTop
   Model.C12Spec4 Proofs.C12Strict Proofs.C12StrictTop Proofs.C12Shared Proofs.C12StrictCor Proofs.C12StrictEx Proofs.C12Tuple
-  Proofs.C12IsoFull Proofs.C12ResultHeap Model.C12Classes Proofs.C12Alias Proofs.C12Owner.
+  Proofs.C12IsoFull Proofs.C12ResultHeap Model.C12Classes Proofs.C12Alias Proofs.C12Owner
+  Proofs.C12W9Wf4 Proofs.C12W9Cor Proofs.C12W9Route Proofs.C12W9Closed.
 Import ListNotations.
 Open Scope Z_scope.
 
@@ -786,3 +787,120 @@ Theorem foreign_owner_hypotheses_satisfiable :
   /\ memz 0 (owned_list owner_heap) = false.
 Proof. exact owner_heap_iso_hyp. Qed.
 Print Assumptions foreign_owner_hypotheses_satisfiable.
+
+(* ---- wave 9: the result heap is again in the domain of the isomorphism theorems (wf_heap4), copy of a copy ------------
+   result_heap_wf4 closes result_heap_annotation_sets_exact_partial: BOTH conjuncts of wf_heap4, in the executable boolean
+   form, hold for the result heap (sh s') of a successful deep / scoped copy - every annotable object (old or copy) has an
+   exactly-shaped owned annotation set, and no annotation set, _item_list or _item_set of the result heap has two owners.
+   Old/old owners: hypothesis on h; fresh/fresh: Inv3.own_cont and the `target` back pointer; old/fresh: what an old owner
+   holds is old (h is closed), what a fresh owner holds is fresh (an old set / list / set object cannot refer to a fresh
+   object: Proofs/C12W9Wf4.v fresh_owner_parts_fresh). *)
+Theorem result_heap_wf4 : forall nf h seeds root fuel s' y,
+  wf_heap h seeds = true -> wf_heap2 h = true -> wf_heap3 h = true -> wf_heap4 h = true ->
+  memz root (owned_list h) = false -> 0 <= root < hlen h -> (length h < fuel)%nat ->
+  run_seeded nf fuel h seeds root = Ok (s', R y) ->
+  wf_heap4 (sh s') = true.
+Proof. exact result_heap_wf4_l. Qed.
+Print Assumptions result_heap_wf4.
+
+(* its second conjunct as a proposition *)
+Theorem result_heap_owned_conts_nodup : forall nf h seeds root fuel s' y,
+  wf_heap h seeds = true -> wf_heap2 h = true -> wf_heap3 h = true -> wf_heap4 h = true ->
+  memz root (owned_list h) = false -> 0 <= root < hlen h -> (length h < fuel)%nat ->
+  run_seeded nf fuel h seeds root = Ok (s', R y) ->
+  NoDup (owned_conts (sh s')).
+Proof. exact result_heap_nodup_l. Qed.
+Print Assumptions result_heap_owned_conts_nodup.
+
+(* an owned set / container of the result heap is one of the source heap (old owner), or a fresh object that is not the
+   recorded copy of anything (fresh owner: rebuilt by annotations.add) *)
+Theorem result_heap_owned_conts_split : forall nf h seeds root fuel s' y,
+  wf_heap h seeds = true -> wf_heap2 h = true -> wf_heap3 h = true -> wf_heap4 h = true ->
+  memz root (owned_list h) = false -> 0 <= root < hlen h -> (length h < fuel)%nat ->
+  run_seeded nf fuel h seeds root = Ok (s', R y) ->
+  forall a, In a (owned_conts (sh s')) ->
+    (a < hlen h /\ In a (owned_conts h)) \/ (hlen h <= a /\ ~ (exists a0, In (a0, a) (sc s'))).
+Proof. exact result_conts_split. Qed.
+Print Assumptions result_heap_owned_conts_split.
+
+(* the copy's root y is a legal root of a further copy: not an owned annotation set or container of the result heap
+   (root_ok4, one of the three privacy hypotheses of deepcopy_isomorphism_strict), not in owned_list, inside the heap *)
+Theorem result_heap_root_ok : forall nf h seeds root fuel s' y,
+  wf_heap h seeds = true -> wf_heap2 h = true -> wf_heap3 h = true -> wf_heap4 h = true ->
+  memz root (owned_list h) = false -> root_ok4 h root = true -> 0 <= root < hlen h -> (length h < fuel)%nat ->
+  run_seeded nf fuel h seeds root = Ok (s', R y) ->
+  root_ok4 (sh s') y = true /\ memz y (owned_list (sh s')) = false /\ 0 <= y < hlen (sh s').
+Proof. exact result_root_ok4_l. Qed.
+Print Assumptions result_heap_root_ok.
+
+(* COPY OF A COPY: y1 = copy of root (heap h -> sh s1), y2 = copy of y1 (heap sh s1 -> sh s2, any seeds2 / variant nf2).
+   The strict isomorphism holds between the first copy and the second, and wf_heap4 / root_ok4 / root-not-owned are
+   DERIVED for the intermediate heap and hold again after the second copy (so they never need re-checking along a chain
+   of copies).  PARTIAL: the other hypotheses of deepcopy_isomorphism_strict on the intermediate heap - wf_heap, wf_heap2,
+   wf_heap3, wf_heap3s, root_seeds_ok and the two privacy predicates private_region_ok / conts_private_ok - are NOT derived
+   from those of h; they remain explicit (executable) hypotheses on (sh s1).  Missing for the full statement
+   `hypotheses on h -> hypotheses on sh s1`: an invariant classifying every fresh object that is not a recorded copy as the
+   rebuilt AnnotationSet / _item_list / _item_set of a recorded annotable copy (needed for conts_private_ok, wf_heap3s and
+   for the closure part of private_region_ok), and preservation of bound_names_ok / items_nodup_ok / taxa_private_ok. *)
+Theorem copy_of_copy_isomorphic_partial : forall nf h seeds root fuel s1 y1 nf2 seeds2 reg2 fuel2 s2 y2,
+  wf_heap h seeds = true -> wf_heap2 h = true -> wf_heap3 h = true -> wf_heap4 h = true ->
+  memz root (owned_list h) = false -> root_ok4 h root = true -> 0 <= root < hlen h -> (length h < fuel)%nat ->
+  run_seeded nf fuel h seeds root = Ok (s1, R y1) ->
+  wf_heap (sh s1) seeds2 = true -> wf_heap2 (sh s1) = true -> wf_heap3 (sh s1) = true -> wf_heap3s (sh s1) = true ->
+  root_seeds_ok (sh s1) seeds2 y1 = true ->
+  private_region_ok (sh s1) seeds2 reg2 y1 = true -> conts_private_ok (sh s1) = true ->
+  (length (sh s1) < fuel2)%nat ->
+  run_seeded nf2 fuel2 (sh s1) seeds2 y1 = Ok (s2, R y2) ->
+  (iso_rel (sh s1) s2 y1 y2 y1 y2
+   /\ (forall b, reach (sh s2) y2 b -> exists a, iso_rel (sh s1) s2 y1 y2 a b)
+   /\ (forall a, reach (sh s1) y1 a -> (exists b, iso_rel (sh s1) s2 y1 y2 a b) \/ empty_annset_part (sh s1) a)
+   /\ (forall a a' b, iso_rel (sh s1) s2 y1 y2 a b -> iso_rel (sh s1) s2 y1 y2 a' b -> a = a')
+   /\ (forall a b b', iso_rel (sh s1) s2 y1 y2 a b -> iso_rel (sh s1) s2 y1 y2 a b' ->
+         b = b' \/ kind_at (sh s1) a = Some KTuple)
+   /\ (forall a b, iso_rel (sh s1) s2 y1 y2 a b -> kind_at (sh s1) a <> Some KTuple -> (a = b <-> In a reg2))
+   /\ (forall a b, In (a, b) (sc s2) ->
+         is_atomic (sh s1) a = false /\ (reach (sh s2) y2 b -> ~ In a (owned_conts (sh s1))))
+   /\ (forall b, reach (sh s2) y2 b -> hlen (sh s1) <= b -> b = y2 \/
+         exists a am m, iso_rel (sh s1) s2 y1 y2 a b /\ iso_rel (sh s1) s2 y1 y2 am m /\ hlen (sh s1) <= m
+                        /\ edge (sh s1) am a /\ edge (sh s2) m b))
+  /\ wf_heap4 (sh s1) = true /\ root_ok4 (sh s1) y1 = true
+  /\ wf_heap4 (sh s2) = true /\ root_ok4 (sh s2) y2 = true /\ memz y2 (owned_list (sh s2)) = false.
+Proof. exact copy_of_copy_isomorphic_l. Qed.
+Print Assumptions copy_of_copy_isomorphic_partial.
+
+(* its hypotheses are satisfiable: on the example heap, for the deep and the namespace-scoped route, the residual
+   hypotheses (cc_residual = wf_heap && wf_heap2 && wf_heap3 && wf_heap3s && root_seeds_ok && private_region_ok (region =
+   seeded_region) && conts_private_ok) hold on the first copy's heap, the second copy succeeds, and they hold on the second
+   copy's heap again *)
+Theorem copy_of_copy_hypotheses_satisfiable :
+  wf_heap4 ex_heap = true /\ root_ok4 ex_heap 0 = true
+  /\ (exists s1 s2, run_seeded false 10 ex_heap [] 0 = Ok (s1, R 9)
+        /\ cc_residual (sh s1) [] 9 = true
+        /\ run_seeded false 30 (sh s1) [] 9 = Ok (s2, R 19) /\ hlen (sh s2) = 29
+        /\ cc_residual (sh s2) [] 19 = true)
+  /\ (exists s1 s2, run_seeded false 10 ex_heap (ns_seeds ex_heap 1) 0 = Ok (s1, R 9)
+        /\ cc_residual (sh s1) (ns_seeds (sh s1) 1) 9 = true
+        /\ run_seeded false 30 (sh s1) (ns_seeds (sh s1) 1) 9 = Ok (s2, R 16) /\ hlen (sh s2) = 23
+        /\ cc_residual (sh s2) (ns_seeds (sh s2) 1) 16 = true).
+Proof. exact cc_example. Qed.
+Print Assumptions copy_of_copy_hypotheses_satisfiable.
+
+(* result_heap_wf4 + result_heap_root_ok on the two modelled routes (copy.deepcopy / taxon-namespace-scoped copy) *)
+Theorem route_result_heap_wf4 : forall nf h root r fuel s' y,
+  (r = RDeep \/ exists ns, r = RScoped ns) ->
+  wf_heap h (route_seeds h r) = true -> wf_heap2 h = true -> wf_heap3 h = true -> wf_heap4 h = true ->
+  memz root (owned_list h) = false -> root_ok4 h root = true -> 0 <= root < hlen h -> (length h < fuel)%nat ->
+  run nf fuel h root r = Ok (s', R y) ->
+  wf_heap4 (sh s') = true /\ root_ok4 (sh s') y = true /\ memz y (owned_list (sh s')) = false
+  /\ 0 <= y < hlen (sh s').
+Proof. exact route_result_heap_wf4_l. Qed.
+Print Assumptions route_result_heap_wf4.
+
+(* the result heap is closed again (every reference of every object, old or new, points inside the heap): the first
+   conjunct of wf_heap for the intermediate heap of a copy of a copy *)
+Theorem result_heap_closed : forall nf h seeds root fuel s' y,
+  wf_heap h seeds = true -> 0 <= root < hlen h -> (length h < fuel)%nat ->
+  run_seeded nf fuel h seeds root = Ok (s', R y) ->
+  closedb (sh s') = true.
+Proof. exact result_heap_closed_l. Qed.
+Print Assumptions result_heap_closed.
